@@ -80,6 +80,7 @@ type genOpts struct {
 	maxDepth   int
 	appLen     int
 	maxRoutes  int
+	noEcho     bool
 }
 
 func genMatcher(e *worlds.Env, b *Builder, o *genOpts) MSpec {
@@ -158,6 +159,9 @@ func genRoute(e *worlds.Env, b *Builder, o *genOpts, depth int) RSpec {
 	if end == 2 && depth >= o.maxDepth {
 		end = 0
 	}
+	if end == 1 && o.noEcho {
+		end = 0
+	}
 	switch end {
 	case 0:
 		r.Handlers = append(r.Handlers, HSpec{Kind: "recorder", Name: b.id("rec"), MaxBuf: e.T.Pick("rec-maxbuf", 4096, 1, 64, 3000, 20000)})
@@ -165,6 +169,10 @@ func genRoute(e *worlds.Env, b *Builder, o *genOpts, depth int) RSpec {
 		r.Handlers = append(r.Handlers, HSpec{Kind: "mark", Name: b.id("echo"), K: 0}, HSpec{Kind: "echo", Name: "echo"})
 	case 2:
 		r.Handlers = append(r.Handlers, HSpec{Kind: "subroute", Name: b.id("sub"), Sub: genRouteList(e, b, o, depth+1)})
+		if e.T.Prob(1, 3, "h-after-sub") {
+			// the subroute's fallback is a consuming handler
+			r.Handlers = append(r.Handlers, HSpec{Kind: "recorder", Name: b.id("recfb"), MaxBuf: e.T.Pick("rec-maxbuf", 4096, 1, 64, 3000)})
+		}
 	case 3:
 		// non-terminal: routing continues with the following routes
 		if len(r.Handlers) == 0 {
